@@ -476,6 +476,26 @@ theorem tensor_matrix_agree [Add α] [Mul α] [Zero α]
       mMatMul_eq hn hn2 hm1.rows_pos hm2.cols_pos hA hB, rfl, ?_⟩
     simp
 
+/-- `MatrixRefTensor`: a well-formed 2-dimensional tensor view seen through the matrix API is a
+    well-formed matrix view showing the same table (whatever the iteration / storage order of the
+    tensor view, e.g. a `TensorAccess` in swapped dimension order whose `data_layout` is
+    column-major) — so `mElementwise_get`, `mMap_get` (negation, scalar broadcasts, `map`),
+    `mMatMul_get_eq_sum` and `tensor_matrix_agree` apply to it. -/
+theorem tensor_view_as_matrix_view (v : Arith.TView ν α) (hv : v.WF) {a b : ν} {r c : Nat}
+    (hs : v.shape = [(a, r), (b, c)]) :
+    ∃ mv, MView.ofTView v = some mv ∧ mv.WF ∧ mv.rows = r ∧ mv.columns = c ∧ SameTable v mv a b := by
+  refine ⟨⟨r, c, fun i j => v.get [i, j]⟩, by simp [MView.ofTView, hs], ?_, rfl, rfl, ⟨hs, fun _ _ => rfl⟩⟩
+  refine ⟨hv.shape.2 (a, r) (by simp [hs]), hv.shape.2 (b, c) (by simp [hs]), ?_, ?_⟩
+  · intro i j hi hj
+    exact hv.some_of_inBounds [i, j] (by simp [Arith.TView.lens, hs, inBounds, hi, hj])
+  · intro i j hn
+    apply hv.none_of_not [i, j] (by simp [hs])
+    simp only [Arith.TView.lens, hs, List.map_cons, List.map_nil, inBounds, Bool.and_true]
+    by_cases hi : i < r
+    · have hj : ¬ j < c := fun hj => hn ⟨hi, hj⟩
+      simp [hj]
+    · simp [hi]
+
 /-! ### Every composition of the library's view adaptors is a well-formed operand -/
 
 /-- C02's model of the view adaptors (`View`: any composition of range / mask / index / expansion /
